@@ -406,7 +406,7 @@ func runC20(c *Ctx) error {
 		c20Run(c, m, sc)
 	}
 	n := c.N(1500, 60000)
-	for i := 0; i < n; i++ {
+	for i := 0; i < n && !c.Rep.ShouldStop(); i++ {
 		c20Run(c, m, c20Gen(c.Rng))
 	}
 	return nil
